@@ -5,7 +5,7 @@ import json
 import os
 import sqlite3
 
-from . import tlc
+from . import tlc, tlaval
 from .tlc import MachineryError
 from pony.orm import core
 from pony.orm.core import Database, Required, Optional, Set, db_session, select
@@ -88,6 +88,13 @@ def refute(scratch, expected, *, workers=4, tag=None, **kw):
             expected, kw, res.violated, tlc._tail(res.stdout, 30)))
     steps = [l.split(' line ')[0].split('<', 1)[1] for l in res.stdout.splitlines() if l.startswith('State ') and '<' in l
              and 'Initial predicate' not in l]
+    try:        # the programs (history) of the counterexample, from its initial state
+        first = res.stdout.split('State 1: <Initial predicate>', 1)[1].split('State 2:', 1)[0]
+        st = tlaval.parse_state(first)
+        progs = [['%s(%s)' % (o['q'], o['p']['v']) if o['op'] == 'exec' else o['q'] for o in pr] for pr in st['prog']]
+        steps = ['programs: ' + ' || '.join('; '.join(pr) for pr in progs)] + steps
+    except (IndexError, KeyError, ValueError, TypeError):
+        pass
     return res, steps
 
 
